@@ -161,6 +161,19 @@ func (e *Engine) callFn(st *State, fr *Frame, fn *ssa.Function, bind []Value, ar
 				key := "ghost$" + name
 				if !st.Marked[t] {
 					st.Marked[t] = true
+					// ghost *state* objects (accessors returning a ghost struct) are injective, non-nil and
+					// of their own kind; ghost *relations* to real objects (ghconn: reader -> connection)
+					// are plain uninterpreted functions
+					isState := false
+					if pt, ok := fn.Signature.Results().At(0).Type().(*types.Pointer); ok {
+						if n, ok := pt.Elem().(*types.Named); ok && strings.HasPrefix(n.Obj().Name(), "ghost") {
+							isState = true
+						}
+					}
+					if !isState {
+						k(st, t)
+						return
+					}
 					st.Assume(e.C.Eq(e.C.App(key+"_inv", a.Sort, t), a))
 					st.Assume(e.C.Not(e.C.Eq(t, e.i64(0))))
 					st.Assume(e.C.Eq(e.C.App("ghost_kind", smt.BV64, t), e.kindConst(key)))
@@ -276,7 +289,34 @@ func (e *Engine) intrinsic(st *State, fr *Frame, name string, fn *ssa.Function, 
 		return &intrRes{c.Select(e.heapArr(e.rd(st), "chan.armed", smt.Bool), e.chanTermOf(st, args[0]))}, true
 	case "gvcArmed":
 		return &intrRes{c.Select(e.chLastSent(e.rd(st)), e.chanTermOf(st, args[0]))}, true
-	case "gvcMod", "gvcModAll", "gvcModElems", "gvcModMap", "gvcModChan":
+	case "gvcModMap":
+		// all entries of the map object may change
+		mt := fn.Signature.Params().At(0).Type()
+		hk, vk, m := e.mapKeys(mt)
+		mref := args[0].(*smt.Term)
+		ks := scalarSort(m.Key())
+		if ks == nil {
+			e.fail("map with non-scalar key")
+		}
+		keys := map[string]*smt.Sort{hk: smt.Arr(ks, smt.Bool)}
+		if s2 := scalarSort(m.Elem()); s2 != nil {
+			keys[vk] = smt.Arr(ks, s2)
+		} else {
+			for _, sfx := range []string{".#reg", ".#off", ".#len", ".#cap"} {
+				keys[vk+sfx] = smt.Arr(ks, smt.BV64)
+			}
+		}
+		for key, srt := range keys {
+			if st.ModCollect != nil {
+				e.heapArr(st, key, srt)
+				st.ModCollect.heap[key] = append(st.ModCollect.heap[key], mref)
+			} else {
+				a := e.heapArr(st, key, srt)
+				st.Heap[key] = c.Store(a, mref, c.Fresh("havoc$"+key, srt))
+			}
+		}
+		return &intrRes{nil}, true
+	case "gvcMod", "gvcModAll", "gvcModElems", "gvcModChan":
 		e.applyMod(st, name, args[0])
 		return &intrRes{nil}, true
 	case "gvcFresh":
